@@ -21,10 +21,10 @@ theorem index_recurrence (cfg : Cfg K) (htol : 0 < cfg.tol) (d : Nat) (newpt : B
   · rw [hp]; field_simp; ring
   · rw [hb] at hz; cases hz
 
-example : ∃ sd', stratChanged Ex.cfg true Ex.strat 1050 300 = true ∧
-    isZero Ex.cfg.tol (Ex.strat.lastValue + Ex.strat.netFlows) = false ∧
-    stratWrite Ex.cfg 2 true Ex.strat 1050 300 0 = .ok sd' := by
-  norm_num [stratWrite, stratChanged, stratSetTotals, mvReturn, stratSetPrice, isZero, absA, Ex.cfg, Ex.strat,
+example : ∃ sd', stratChanged LEx.cfg true LEx.strat 1050 300 = true ∧
+    isZero LEx.cfg.tol (LEx.strat.lastValue + LEx.strat.netFlows) = false ∧
+    stratWrite LEx.cfg 2 true LEx.strat 1050 300 0 = .ok sd' := by
+  norm_num [stratWrite, stratChanged, stratSetTotals, mvReturn, stratSetPrice, isZero, absA, LEx.cfg, LEx.strat,
     Except.map, pure, Except.pure]
 
 /-- Zero base, non-zero value: the update raises (`ZeroDivisionError` in the code). -/
@@ -44,9 +44,9 @@ theorem zero_base_raises (cfg : Cfg K) (d : Nat) (newpt : Bool) (sd : StratData 
     · rw [hb] at hz; cases hz
     · rw [hv] at hz; cases hz
 
-example : stratChanged Ex.cfg true { Ex.strat with lastValue := 0, netFlows := 0 } 1050 300 = true ∧
-    isZero Ex.cfg.tol (0 + 0 : Rat) = true ∧ isZero Ex.cfg.tol (1050 : Rat) = false := by
-  norm_num [stratChanged, isZero, absA, Ex.cfg]
+example : stratChanged LEx.cfg true { LEx.strat with lastValue := 0, netFlows := 0 } 1050 300 = true ∧
+    isZero LEx.cfg.tol (0 + 0 : Rat) = true ∧ isZero LEx.cfg.tol (1050 : Rat) = false := by
+  norm_num [stratChanged, isZero, absA, LEx.cfg]
 
 /-- Zero base and zero value: the return is 0 and the index stays at `last_price`. -/
 theorem zero_base_zero_value (cfg : Cfg K) (d : Nat) (newpt : Bool) (sd sd' : StratData K) (val notl bo : K)
@@ -58,9 +58,9 @@ theorem zero_base_zero_value (cfg : Cfg K) (d : Nat) (newpt : Bool) (sd sd' : St
   · rw [hb] at hz; cases hz
   · exact ⟨hv, by rw [hp]; ring⟩
 
-example : ∃ sd', stratChanged Ex.cfg true { Ex.strat with lastValue := 0, netFlows := 0 } 0 0 = true ∧
-    stratWrite Ex.cfg 2 true { Ex.strat with lastValue := 0, netFlows := 0 } 0 0 0 = .ok sd' := by
-  norm_num [stratWrite, stratChanged, stratSetTotals, mvReturn, stratSetPrice, isZero, absA, Ex.cfg, Ex.strat,
+example : ∃ sd', stratChanged LEx.cfg true { LEx.strat with lastValue := 0, netFlows := 0 } 0 0 = true ∧
+    stratWrite LEx.cfg 2 true { LEx.strat with lastValue := 0, netFlows := 0 } 0 0 0 = .ok sd' := by
+  norm_num [stratWrite, stratChanged, stratSetTotals, mvReturn, stratSetPrice, isZero, absA, LEx.cfg, LEx.strat,
     Except.map, pure, Except.pure]
 
 /-- Fixed-income strategy: the index is additive, `price = last_price + par · pnl / notional` with
@@ -84,9 +84,9 @@ theorem fi_index_additive (cfg : Cfg K) (d : Nat) (newpt : Bool) (sd sd' : Strat
     · rw [h1] at h'; cases h'
     · rw [h2] at h'; cases h'
 
-example : ∃ sd', stratChanged Ex.cfg true { Ex.strat with fixedIncome := true } 1050 300 = true ∧
-    stratWrite Ex.cfg 2 true { Ex.strat with fixedIncome := true } 1050 300 0 = .ok sd' := by
-  norm_num [stratWrite, stratChanged, stratSetTotals, fiReturn, stratSetPrice, isZero, absA, Ex.cfg, Ex.strat,
+example : ∃ sd', stratChanged LEx.cfg true { LEx.strat with fixedIncome := true } 1050 300 = true ∧
+    stratWrite LEx.cfg 2 true { LEx.strat with fixedIncome := true } 1050 300 0 = .ok sd' := by
+  norm_num [stratWrite, stratChanged, stratSetTotals, fiReturn, stratSetPrice, isZero, absA, LEx.cfg, LEx.strat,
     Except.map, pure, Except.pure]
 
 /-- Fixed income, both notionals zero, non-zero P&L: raises. -/
@@ -109,9 +109,9 @@ theorem fi_zero_base_raises (cfg : Cfg K) (d : Nat) (newpt : Bool) (sd : StratDa
     · rw [h2] at hz; cases hz
     · rw [h3] at hz; cases hz
 
-example : stratChanged Ex.cfg true { Ex.strat with fixedIncome := true, lastNotl := 0 } 1050 0 = true ∧
-    isZero Ex.cfg.tol (0 : Rat) = true ∧ isZero Ex.cfg.tol (1050 - (900 + 50) : Rat) = false := by
-  norm_num [stratChanged, isZero, absA, Ex.cfg]
+example : stratChanged LEx.cfg true { LEx.strat with fixedIncome := true, lastNotl := 0 } 1050 0 = true ∧
+    isZero LEx.cfg.tol (0 : Rat) = true ∧ isZero LEx.cfg.tol (1050 - (900 + 50) : Rat) = false := by
+  norm_num [stratChanged, isZero, absA, LEx.cfg]
 
 /-- A flow `a` booked by `adjust(a, flow := true)` enters the base of the return together with the value:
     the index recomputed afterwards (value `V + a`) satisfies
@@ -136,10 +136,10 @@ theorem flow_neutral (cfg : Cfg K) (htol : 0 < cfg.tol) (d : Nat) (newpt : Bool)
   rw [hV] at hrec'
   exact mul_right_cancel₀ hne hrec'
 
-example : ∃ sd', stratChanged Ex.cfg false (Ex.strat.adjust { amount := 100, fee := 0, flow := true }) (1000 + 100) 300 = true ∧
-    isZero Ex.cfg.tol (Ex.strat.lastValue + Ex.strat.netFlows + 100) = false ∧
-    stratWrite Ex.cfg 1 false (Ex.strat.adjust { amount := 100, fee := 0, flow := true }) (1000 + 100) 300 0 = .ok sd' := by
-  norm_num [stratWrite, stratChanged, stratSetTotals, mvReturn, stratSetPrice, isZero, absA, Ex.cfg, Ex.strat,
+example : ∃ sd', stratChanged LEx.cfg false (LEx.strat.adjust { amount := 100, fee := 0, flow := true }) (1000 + 100) 300 = true ∧
+    isZero LEx.cfg.tol (LEx.strat.lastValue + LEx.strat.netFlows + 100) = false ∧
+    stratWrite LEx.cfg 1 false (LEx.strat.adjust { amount := 100, fee := 0, flow := true }) (1000 + 100) 300 0 = .ok sd' := by
+  norm_num [stratWrite, stratChanged, stratSetTotals, mvReturn, stratSetPrice, isZero, absA, LEx.cfg, LEx.strat,
     StratData.adjust, Except.map, pure, Except.pure]
 
 /-- The same adjustment booked with `flow := false` (a fee, a cost, a non-flow adjustment) enters the value but
@@ -165,9 +165,9 @@ theorem nonflow_moves (cfg : Cfg K) (htol : 0 < cfg.tol) (d : Nat) (newpt : Bool
   · exact hlp h0
   · exact ha h0
 
-example : ∃ sd', stratChanged Ex.cfg false (Ex.strat.adjust { amount := -10, fee := 0, flow := false }) (1000 + -10) 300 = true ∧
-    stratWrite Ex.cfg 1 false (Ex.strat.adjust { amount := -10, fee := 0, flow := false }) (1000 + -10) 300 0 = .ok sd' := by
-  norm_num [stratWrite, stratChanged, stratSetTotals, mvReturn, stratSetPrice, isZero, absA, Ex.cfg, Ex.strat,
+example : ∃ sd', stratChanged LEx.cfg false (LEx.strat.adjust { amount := -10, fee := 0, flow := false }) (1000 + -10) 300 = true ∧
+    stratWrite LEx.cfg 1 false (LEx.strat.adjust { amount := -10, fee := 0, flow := false }) (1000 + -10) 300 0 = .ok sd' := by
+  norm_num [stratWrite, stratChanged, stratSetTotals, mvReturn, stratSetPrice, isZero, absA, LEx.cfg, LEx.strat,
     StratData.adjust, Except.map, pure, Except.pure]
 
 /-- Exact condition under which a flow leaves the index where it was: with `p₀` the index consistent with
@@ -205,11 +205,11 @@ example : (110 : Rat) * 100 = 100 * 110 ∧ (105 : Rat) * (100 + 100) = 100 * (1
     110; a flow of +100 booked afterwards on the same date (value 210, base 200) rewrites the index to 105. -/
 theorem flow_after_pnl_moves_index :
     let sd0 : StratData Rat :=
-      { Ex.strat with lastValue := 100, netFlows := 0, lastPrice := 100, value := 100, price := 100, capital := 100 }
-    ∃ sd1 sd2, stratWrite Ex.cfg 1 false sd0 110 0 0 = .ok sd1 ∧ sd1.price = 110 ∧
-      stratWrite Ex.cfg 1 false (sd1.adjust { amount := 100, fee := 0, flow := true }) (110 + 100) 0 0 = .ok sd2 ∧
+      { LEx.strat with lastValue := 100, netFlows := 0, lastPrice := 100, value := 100, price := 100, capital := 100 }
+    ∃ sd1 sd2, stratWrite LEx.cfg 1 false sd0 110 0 0 = .ok sd1 ∧ sd1.price = 110 ∧
+      stratWrite LEx.cfg 1 false (sd1.adjust { amount := 100, fee := 0, flow := true }) (110 + 100) 0 0 = .ok sd2 ∧
       sd2.price = 105 := by
-  norm_num [stratWrite, stratChanged, stratSetTotals, mvReturn, stratSetPrice, isZero, absA, Ex.cfg, Ex.strat,
+  norm_num [stratWrite, stratChanged, stratSetTotals, mvReturn, stratSetPrice, isZero, absA, LEx.cfg, LEx.strat,
     StratData.adjust, Except.map, pure, Except.pure]
 
 /-- The index starts at `par`: a strategy whose `last_price` is `par` and whose first write (`newpt`) sees
@@ -219,7 +219,7 @@ theorem index_start (cfg : Cfg K) (htol : 0 < cfg.tol) (d : Nat) (sd : StratData
     (hlp : sd.lastPrice = cfg.par) (hval : val = sd.lastValue + sd.netFlows) :
     ∃ sd', stratWrite cfg d true sd val notl bo = .ok sd' ∧ sd'.price = cfg.par := by
   have hch : stratChanged cfg true sd val notl = true := by simp [stratChanged]
-  have hz0 : isZero cfg.tol (0 : K) = true := by rw [isZero_iff]; simpa using htol
+  have hz0 : isZero cfg.tol (0 : K) = true := by rw [isZero_iff_L]; simpa using htol
   obtain ⟨e1, e2, e3, e4, e5, e6, e7⟩ := stratSetTotals_last d sd val notl bo
   have hex : ∃ sd', stratWrite cfg d true sd val notl bo = .ok sd' := by
     unfold stratWrite
@@ -251,9 +251,9 @@ theorem index_start (cfg : Cfg K) (htol : 0 < cfg.tol) (d : Nat) (sd : StratData
     · rw [hp, hp0, hlp]; simp
     · rw [hp, hlp]; simp
 
-example : (0 : Rat) < Ex.cfg.tol ∧ Ex.strat.lastPrice = Ex.cfg.par ∧
-    (950 : Rat) = Ex.strat.lastValue + Ex.strat.netFlows := by
-  norm_num [Ex.cfg, Ex.strat]
+example : (0 : Rat) < LEx.cfg.tol ∧ LEx.strat.lastPrice = LEx.cfg.par ∧
+    (950 : Rat) = LEx.strat.lastValue + LEx.strat.netFlows := by
+  norm_num [LEx.cfg, LEx.strat]
 
 /-- … which is 100 for the module's `PAR = 100`. -/
 theorem index_start_100 (cfg : Cfg K) (htol : 0 < cfg.tol) (hpar : cfg.par = 100) (d : Nat) (sd : StratData K)
@@ -262,9 +262,9 @@ theorem index_start_100 (cfg : Cfg K) (htol : 0 < cfg.tol) (hpar : cfg.par = 100
   obtain ⟨sd', h1, h2⟩ := index_start cfg htol d sd val notl bo hlp hval
   exact ⟨sd', h1, by rw [h2, hpar]⟩
 
-example : (0 : Rat) < Ex.cfg.tol ∧ Ex.cfg.par = 100 ∧ Ex.strat.lastPrice = Ex.cfg.par ∧
-    (950 : Rat) = Ex.strat.lastValue + Ex.strat.netFlows := by
-  norm_num [Ex.cfg, Ex.strat]
+example : (0 : Rat) < LEx.cfg.tol ∧ LEx.cfg.par = 100 ∧ LEx.strat.lastPrice = LEx.cfg.par ∧
+    (950 : Rat) = LEx.strat.lastValue + LEx.strat.netFlows := by
+  norm_num [LEx.cfg, LEx.strat]
 
 /-- The multiplicative return is homogeneous of degree 0: scaling value, `last_value` and `net_flows` by the
     same `k ≠ 0` writes the same index, provided both writes happen and both bases pass the `is_zero` guard
@@ -292,11 +292,11 @@ theorem scale_invariant_write (cfg : Cfg K) (htol : 0 < cfg.tol) (d : Nat) (newp
   · rw [hb] at hz; cases hz
 
 example : ∃ sd' sdk', 
-    stratWrite Ex.cfg 2 true Ex.strat 1050 300 0 = .ok sd' ∧
-    stratWrite Ex.cfg 2 true { Ex.strat with lastValue := 3 * 900, netFlows := 3 * 50 } (3 * 1050) 900 0 = .ok sdk' ∧
-    isZero Ex.cfg.tol (Ex.strat.lastValue + Ex.strat.netFlows) = false ∧
-    isZero Ex.cfg.tol (3 * 900 + 3 * 50 : Rat) = false := by
-  norm_num [stratWrite, stratChanged, stratSetTotals, mvReturn, stratSetPrice, isZero, absA, Ex.cfg, Ex.strat,
+    stratWrite LEx.cfg 2 true LEx.strat 1050 300 0 = .ok sd' ∧
+    stratWrite LEx.cfg 2 true { LEx.strat with lastValue := 3 * 900, netFlows := 3 * 50 } (3 * 1050) 900 0 = .ok sdk' ∧
+    isZero LEx.cfg.tol (LEx.strat.lastValue + LEx.strat.netFlows) = false ∧
+    isZero LEx.cfg.tol (3 * 900 + 3 * 50 : Rat) = false := by
+  norm_num [stratWrite, stratChanged, stratSetTotals, mvReturn, stratSetPrice, isZero, absA, LEx.cfg, LEx.strat,
     Except.map, pure, Except.pure]
 
 /-- The recurrence across `update(d)` of a market-value strategy (any children, any depth below):
@@ -341,7 +341,7 @@ theorem update_index_recurrence (cfg : Cfg K) (htol : 0 < cfg.tol) (d : Nat) (sd
       rw [ar3 hn]; exact ⟨rfl, rfl, rfl⟩
   · intro hb
     rw [r1, r4, b1, b4] at hb
-    rw [r1, r2, r4, b1, b2, b4, stratRows_price d sd3 hpt3, stratRows_value]
+    rw [r1, r2, r4, b1, b2, b4, stratRows_price d sd3 hpt3, stratRows_value_L]
     by_cases hch : stratChanged cfg (stratDateChange d sd).2
         { (stratDateChange d sd).1 with capital := (stratDateChange d sd).1.capital + acc.coupons }
         (acc.val + acc.coupons) acc.notl = true
@@ -358,16 +358,16 @@ theorem update_index_recurrence (cfg : Cfg K) (htol : 0 < cfg.tol) (d : Nat) (sd
         exact hch'.1.1
       have hnow : sd.now = some d := by
         by_contra hne
-        rw [stratDateChange_newpt d sd hne] at hnp; cases hnp
+        rw [stratDateChange_newpt_L d sd hne] at hnp; cases hnp
       rcases stratWrite_ok hw with ⟨_, rfl⟩ | ⟨hc, _⟩
       · exact ⟨hnow, hpt1.2.2.2, hpt1.2.2.1⟩
       · rw [hch'] at hc; cases hc
 
-example : ∃ n', updNode Ex.cfg 2 (.strat Ex.strat [.sec Ex.sec]) = .ok n' := by
+example : ∃ n', updNode LEx.cfg 2 (.strat LEx.strat [.sec LEx.sec]) = .ok n' := by
   norm_num [updNode, updKids, stratDateChange, sweepSec, secUpdate, secBaseUpdate, secEarly, secDateChange,
     secRecordPos, secMarkValue, secSetValue, secQuiet, secFlushOutlay, secRowBidoffer, accAdd, cell, eqA,
     stratWrite, stratChanged, stratSetTotals, mvReturn, stratSetPrice, stratRows, kidsWeights,
-    isZero, absA, Ex.cfg, Ex.sec, Ex.strat, Except.bind, Except.map, bind, pure, Except.pure]
+    isZero, absA, LEx.cfg, LEx.sec, LEx.strat, Except.bind, Except.map, bind, pure, Except.pure]
 
 /-- The recurrence over a whole date, whatever the number and order of adjusts, allocations and trades inside
     it: `root0` is the root at the close of the earlier date (index `price[t−1] = sd.price`, value
@@ -381,7 +381,7 @@ theorem index_recurrence_day (cfg : Cfg K) (htol : 0 < cfg.tol) (d n : Nat) (sd 
     (kids : List (Node K)) (root1 root3 : Node K) (stale : Bool) (ops : List (DayOp K)) (w2 : World K)
     (hfi : sd.fixedIncome = false) (hpt : sd.paperTrade = false) (hn : sd.now = some n) (hnd : n ≠ d)
     (hopen : updNode cfg d (.strat sd kids) = .ok root1)
-    (hops : runOps cfg { root := root1, stale := stale } ops = .ok w2)
+    (hops : runDayOps cfg { root := root1, stale := stale } ops = .ok w2)
     (hclose : updNode cfg d w2.root = .ok root3) :
     ∃ sd1 kids1 sd3 kids3, root1 = .strat sd1 kids1 ∧ root3 = .strat sd3 kids3 ∧
       sd3.lastValue = sd.value ∧ sd3.lastPrice = sd.price ∧
@@ -392,7 +392,7 @@ theorem index_recurrence_day (cfg : Cfg K) (htol : 0 < cfg.tol) (d n : Nat) (sd 
   obtain ⟨ov, op, _⟩ := o1 n hn hnd
   obtain ⟨snow, sfi, spt⟩ := updNode_strat_static hopen
   obtain ⟨sd2, kids2, hr2, i1, i2, _, i4, i5, i6, i7, i8, _⟩ :=
-    runOps_root_idx cfg ops { root := .strat sd1 kids1, stale := stale } w2 sd1 kids1 rfl hops
+    runDayOps_root_idx cfg ops { root := .strat sd1 kids1, stale := stale } w2 sd1 kids1 rfl hops
   rw [hr2] at hclose
   have hfi2 : sd2.fixedIncome = false := by rw [i4, sfi, hfi]
   have hpt2 : sd2.paperTrade = false := by rw [i5, spt, hpt]
@@ -408,17 +408,17 @@ theorem index_recurrence_day (cfg : Cfg K) (htol : 0 < cfg.tol) (d n : Nat) (sd 
   · left; rw [← hlv, ← hlp]; exact hrec
   · right; exact ⟨by rw [hp, i8], by rw [hv, i7]⟩
 
-example : ∃ root1 w2 root3, updNode Ex.cfg 2 (.strat Ex.strat [.sec Ex.sec]) = .ok root1 ∧
-    runOps Ex.cfg { root := root1, stale := false } [.adjust [] 25 false true, .transact [0] 2 false none] = .ok w2 ∧
-    updNode Ex.cfg 2 w2.root = .ok root3 := by
+example : ∃ root1 w2 root3, updNode LEx.cfg 2 (.strat LEx.strat [.sec LEx.sec]) = .ok root1 ∧
+    runDayOps LEx.cfg { root := root1, stale := false } [.adjust [] 25 false true, .transact [0] 2 false none] = .ok w2 ∧
+    updNode LEx.cfg 2 w2.root = .ok root3 := by
   norm_num [updNode, updKids, stratDateChange, sweepSec, accAdd, cell, stratWrite, stratChanged, stratSetTotals,
     mvReturn, stratSetPrice, stratRows, kidsWeights, childWeight, Node.skipped, Node.setWeight,
     Node.value, Node.notl, Node.bidofferPaid,
-    runOps, DayOp.run, opAdjust, opTransact, World.modify, modAt, secTransact,
+    runDayOps, DayOp.run, opAdjust, opTransact, World.modify, modAt, secTransact,
     secRefresh, secUpdate, secBaseUpdate, secEarly, secDateChange, secRecordPos, secMarkValue, secSetValue, secQuiet,
     secFlushOutlay, secRowBidoffer, eqA, secTransactCore, secOutlay, isZero,
     absA, StratData.adjust,
-    Ex.cfg, Ex.sec, Ex.strat, Ex.comm, Except.bind, Except.map, bind, pure, Except.pure]
+    LEx.cfg, LEx.sec, LEx.strat, LEx.comm, Except.bind, Except.map, bind, pure, Except.pure]
 
 /-- The same for the root's own `update` (`updRoot`, which adds the bankruptcy step): unless the value has
     gone negative on a not yet bankrupt root (C16's territory), the root update *is* `updNode`, so
@@ -444,11 +444,11 @@ theorem root_update_recurrence (cfg : Cfg K) (htol : 0 < cfg.tol) (d : Nat) (w w
     exact ⟨sd', kids', he, c1, c3⟩
   · right; exact ⟨hb, hneg⟩
 
-example : ∃ w', updRoot Ex.cfg 2 { root := .strat Ex.strat [.sec Ex.sec], stale := true } = .ok w' := by
+example : ∃ w', updRoot LEx.cfg 2 { root := .strat LEx.strat [.sec LEx.sec], stale := true } = .ok w' := by
   norm_num [updRoot, updKids, stratDateChange, sweepSec, secUpdate, secBaseUpdate, secEarly, secDateChange,
     secRecordPos, secMarkValue, secSetValue, secQuiet, secFlushOutlay, secRowBidoffer, accAdd, cell, eqA,
     stratWrite, stratChanged, stratSetTotals, mvReturn, stratSetPrice, stratRows, kidsWeights,
     Node.value, Node.notl, Node.bidofferPaid,
-    isZero, absA, Ex.cfg, Ex.sec, Ex.strat, Except.bind, Except.map, bind, pure, Except.pure]
+    isZero, absA, LEx.cfg, LEx.sec, LEx.strat, Except.bind, Except.map, bind, pure, Except.pure]
 
 end Bt.C03
